@@ -28,6 +28,48 @@ func genPrecedence(repo string) (string, error) {
 		return "", err
 	}
 
+	// 0. the two small enumerations the printer and parser switch on
+	enum := func(typ, suffix string) ([]string, error) {
+		for _, d := range file.Decls {
+			gd, ok := d.(*ast.GenDecl)
+			if !ok || gd.Tok != token.CONST || len(gd.Specs) == 0 {
+				continue
+			}
+			first := gd.Specs[0].(*ast.ValueSpec)
+			if id, ok := first.Type.(*ast.Ident); !ok || id.Name != typ {
+				continue
+			}
+			if len(first.Values) != 1 {
+				return nil, fmt.Errorf("shape not recognised: %s constants", typ)
+			}
+			if id, ok := first.Values[0].(*ast.Ident); !ok || id.Name != "iota" {
+				return nil, fmt.Errorf("shape not recognised: %s constants do not start at iota", typ)
+			}
+			var names []string
+			for i, sp := range gd.Specs {
+				vs := sp.(*ast.ValueSpec)
+				if len(vs.Names) != 1 || (i > 0 && (vs.Type != nil || len(vs.Values) != 0)) {
+					return nil, fmt.Errorf("shape not recognised: %s constant #%d", typ, i)
+				}
+				n := vs.Names[0].Name
+				if !strings.HasSuffix(n, suffix) || len(n) == len(suffix) {
+					return nil, fmt.Errorf("shape not recognised: %s constant %s", typ, n)
+				}
+				names = append(names, n)
+			}
+			return names, nil
+		}
+		return nil, fmt.Errorf("shape not recognised: %s constants not found", typ)
+	}
+	litKinds, err := enum("LiteralType", "Literal")
+	if err != nil {
+		return "", err
+	}
+	chanDirs, err := enum("ChanDirection", "Direction")
+	if err != nil {
+		return "", err
+	}
+
 	// 1. constants
 	var ops []string
 	for _, d := range file.Decls {
@@ -419,6 +461,25 @@ func genPrecedence(repo string) (string, error) {
 	b.WriteString("def binaryRightParens (parentOp : Op) (parent child : Nat) : Bool := " + right + "\n")
 	b.WriteString("\n/-- UnaryOperator.String: the operand, when it is an Operator, is parenthesised iff … -/\n")
 	b.WriteString("def unaryParens (parentOp : Op) (parent child : Nat) : Bool := " + un + "\n")
+	emitEnum := func(name, doc string, names []string) {
+		b.WriteString("\n/-- " + doc + " -/\ninductive " + name + " where\n")
+		for _, n := range names {
+			b.WriteString("  | " + n + "\n")
+		}
+		b.WriteString("  deriving DecidableEq, Repr\n\ndef " + name + ".all : List " + name + " := [")
+		for i, n := range names {
+			if i > 0 {
+				b.WriteString(", ")
+			}
+			b.WriteString("." + n)
+		}
+		b.WriteString("]\n\ndef " + name + ".name : " + name + " → String\n")
+		for _, n := range names {
+			fmt.Fprintf(&b, "  | .%s => %q\n", n, n)
+		}
+	}
+	emitEnum("LiteralType", "the ast.LiteralType constants", litKinds)
+	emitEnum("ChanDirection", "the ast.ChanDirection constants", chanDirs)
 	b.WriteString("\nend ScriggoV.Gen.Precedence\n")
 	return b.String(), nil
 }
